@@ -47,14 +47,35 @@ def authAt (h : Nat) (idxs : List Nat) (auth : List D) (k : Nat) : Option D :=
 def consistent (leafs : List (Nat × D)) : Bool :=
   leafs.all (fun x => leafs.all (fun y => x.1 != y.1 || decide (x.2 = y.2)))
 
-/-- the reference verifier: trivial proofs are accepted; otherwise the height is at most `MAX_TREE_HEIGHT`, all indices
-    are in range, repeated indices are consistent, the authentication structure has exactly the minimal length, and
-    the recomputation yields the expected root -/
-def refVerify (p : Proof D) (root : D) : Bool :=
-  p.isTrivial ||
-  (decide (p.height ≤ MAX_TREE_HEIGHT) && p.leafs.all (fun x => decide (x.1 < 2^p.height)) && consistent p.leafs
+/-- value of the sibling `s` (a node with `lvl` levels below it) of a path node: recomputed when computable, else the
+    supplied authentication node -/
+def sibVal (leafD authD : Nat → Option D) (lvl s : Nat) : Option D :=
+  match refVal H leafD authD lvl s with
+  | some v => some v
+  | none => authD s
+
+/-- the structural conditions of a proof: the height is at most `MAX_TREE_HEIGHT`, all indices are in range, repeated
+    indices are consistent, and the authentication structure has exactly the minimal length -/
+def wellFormed (p : Proof D) : Bool :=
+  decide (p.height ≤ MAX_TREE_HEIGHT) && p.leafs.all (fun x => decide (x.1 < 2^p.height)) && consistent p.leafs
     && decide (p.auth.length = (needed p.height (p.leafs.map (·.1))).length)
-    && decide (refVal H (leafAt p.height p.leafs) (authAt p.height (p.leafs.map (·.1)) p.auth) p.height 1 = some root))
+
+/-- the root recomputed from the claimed leafs and the supplied nodes placed at the positions `needed` -/
+def refRoot (p : Proof D) : Option D :=
+  refVal H (leafAt p.height p.leafs) (authAt p.height (p.leafs.map (·.1)) p.auth) p.height 1
+
+/-- the reference verifier: trivial proofs are accepted; otherwise the proof must be well-formed (in particular use
+    exactly the minimal node set) and the recomputation must yield the expected root -/
+def refVerify (p : Proof D) (root : D) : Bool :=
+  p.isTrivial || (wellFormed p && decide (refRoot H p = some root))
+
+/-- `nodes` is the heap-ordered Merkle tree over `leaves`: twice as many nodes as leafs, index 0 holds the filler, the
+    leafs are copied to `[n, 2n)`, and every inner node `1 ≤ i < n` is the hash of its two children -/
+def IsMerkleTree (filler : D) (leaves nodes : List D) : Prop :=
+  nodes.length = 2 * leaves.length ∧ nodes[0]? = some filler ∧
+  (∀ i, i < leaves.length → nodes[leaves.length + i]? = leaves[i]?) ∧
+  (∀ i, 1 ≤ i → i < leaves.length →
+    ∃ a b, nodes[2*i]? = some a ∧ nodes[2*i+1]? = some b ∧ nodes[i]? = some (H a b))
 
 /-- the honest tree over `leaves` (length `2^h`): all `2^(h+1)` heap nodes, index 0 is the filler -/
 def treeNodes (filler : D) (h : Nat) (leaves : List D) : List D :=
